@@ -135,6 +135,10 @@ def main(tier, seed, replay=None):
         rep.notes['spec_shapes'] = len(triples)
         sents = keep
         texts = [concretise(s, seed=seed) for s in sents]
+        # the programs the repository's own tests parse (DESIGN 4.5)
+        corpus = gen.suite_corpus(rep)
+        texts += corpus
+        sents += [None] * len(corpus)
     rep.mark('generated')
     res = impl.pmap(_record, texts)
     rep.mark('recorded')
